@@ -33,7 +33,7 @@ func init() {
 		ID:    "C15",
 		Level: "exploration",
 		Rule: "part A: projects on 1..3 services with profile sets over {none,{p},{q},{p,q}} and every labelled DAG with required/optional edges (7 060 projects; thorough: all of them, quick: all on <= 2 services and a seed-chosen fifth of those on 3), each taken raw and after 3 (thorough 5) profile selections, then EVERY single operation of a fixed argument grid (8 profile lists incl. `*` and an unknown profile; every subset of the service names plus an unknown name for enable / disable / select x {no option, IncludeDependencies, IncludeDependents, IgnoreDependencies}; prune), 8 repetitions per step; " +
-			"part B (sampled): random projects on 1..6 services (random DAG, required/optional edges, resource references incl. an undeclared one) x random histories of 1..5 operations with arguments drawn independently of the state (unknown and disabled names included); part C: the same through the real loader (YAML rendering, profiles given as a load option) followed by a random history; 8 (thorough 25) repetitions per step. " +
+			"part B (sampled): random projects on 1..6 services (random DAG, required/optional edges, resource references incl. an undeclared one; half of the states use the same names for networks, volumes, secrets, configs and a service) x random histories of 1..5 operations with arguments drawn independently of the state (unknown and disabled names included); part C: the same through the real loader (YAML rendering, profiles given as a load option) followed by a random history; 8 (thorough 25) repetitions per step. " +
 			"The repetitions of a step run on the same receiver and must be reflect.DeepEqual to each other; the first (and any differing one) is judged by the reference model relative to the abstract state of its receiver. " +
 			"A step is non-trivial when it changes the partition, a dependency set, the active profiles or the resources, or fails; distinct = distinct (receiver state, operation) pairs.",
 		Assumptions: []string{
